@@ -158,3 +158,21 @@ Proof.
     as (t' & E1 & E2 & E3 & _).
   exists t'. repeat split; assumption.
 Qed.
+
+(* ... and through the text: what wrap_and_sort prints, read again (the path of
+   Control::wrap_and_sort, which stores the printed value), is evaluated like the field itself *)
+Theorem sat_wrap_reread : forall (allow : bool) (f : RelGrammar.rfield) (g : str -> option DebVersion.version),
+  RelGrammar.wf_rfield allow f = true -> field_safe f = true -> closure_dom DebVersion.version deb_ok g ->
+  exists t' tp, relations_ws fixed (RelGrammar.rtree_of f) = Ok t' /\
+    parse_relaxed (text t') allow = Ok (tp, 0) /\
+    Sat.deb_ll_sat tp g = Sat.deb_ll_sat (RelGrammar.rtree_of f) g.
+Proof.
+  intros allow f g Hwf Hs Hg.
+  destruct (ws_meaning allow f Hwf Hs) as (t' & E1 & Hwc & _ & Ep & _).
+  exists t', (RelGrammar.rtree_of (canon_field f)). split; [exact E1|]. split; [exact Ep|].
+  destruct (deb_sat_spec _ _ g (wacc_tree_field _ _ (wacc_rtree_of allow (canon_field f) Hwc))
+              (content_safe_dom _ (field_safe_canon allow f Hwf Hs)) Hg) as [S1 _].
+  destruct (deb_sat_spec _ _ g (wacc_tree_field _ _ (wacc_rtree_of allow f Hwf)) (content_safe_dom _ Hs) Hg) as [S2 _].
+  rewrite S1, S2. f_equal. rewrite (field_wcontent_canon allow f Hwf).
+  symmetry. apply spec_perm2, sat_content_perm2, sorted_content_perm2.
+Qed.
